@@ -32,6 +32,8 @@ SPECIAL = [
     "", "a", "a\n", "\n", "\n\n", "<!-- pyml disable-next-line md009-->", "<!-- pyml disable-next-line md009-->\ntext   \n",
     "# h\n\ntext\n", "- a\n- b", "line1\r\nline2\r\n", "text   \n\n\n\nmore\t\n", "[a]: /u\n\n[a]\n", "#  h\n\n*  x\n",
     "1. a\n1. b\n", "text\n<!-- pyml disable-num-lines 2 md013-->\nmore", "> q\nlazy\n",
+    # characters that str.splitlines() treats as line boundaries but that are not line endings of a text file
+    "form\x0cfeed\nnext\n", "vertical\x0btab\n", "sep\u2028arator\nline\n", "para\u2029graph", "next\x85line\nx\n", "fs\x1cgs\x1drs\x1e\nend\n",
 ]
 N_VARIANTS = len(KINDS) * len(KINDS) * len(CBS) * len(CBS) * 2
 N_CASES = N_VARIANTS * 6
